@@ -74,6 +74,80 @@ def _lease_lapses_after_validation(rng, env):
     return choose
 
 
+def _legacy_pointer(ctx, rep):
+    """a table written by an old release (pointer holds a bare version number, files named vN.metadata.json), first accesses by the
+    current code: committer 1 OPENS the table and appends, with committer 2's whole open-and-append placed before each S3 request of
+    committer 1 (real lock). Every acknowledged append is reflected exactly once — whatever any code path writes to the pointer."""
+    import re as _re
+    from .. import fakes3, reader, tablekit
+    k = 0
+    while k < 80:
+        with fakes3.S3Env() as env, fakes3.NoSleep():
+            loc = "wh/legacy"
+            t0 = tablekit.create(loc)
+            for i in range(3):
+                t0.append_records(tablekit.rows(1, start=100 + i, tag="init"))
+            last = 0
+            for k_ in list(env.fake.objects):
+                m_ = _re.match(r"^(.*/metadata/)v(\d+)-[0-9a-f]+\.metadata\.json$", k_)
+                if m_:
+                    env.fake.objects[f"{m_.group(1)}v{m_.group(2)}.metadata.json"] = env.fake.objects.pop(k_)
+                    last = max(last, int(m_.group(2)))
+            env.fake.put_object(Bucket="bkt", Key=f"{loc}/metadata.version-hint.text", Body=str(last).encode())
+            del t0
+            store = reader.S3Store(env.fake, loc)
+            try:
+                reader.view(store)
+            except Exception as e:      # noqa: BLE001
+                rep.notes.append(f"legacy layout not readable by the independent reader: {e}")
+                return
+            S = sched.Sched(_other_commits_after_k(k)(None), watchdog_s=40)
+
+            def hook(phase, op, key, kw):
+                if phase == "before" and S.actor() is not None and op not in ("put-body-sent", "body-read", "list-page"):
+                    S.gate(f"s3.{op}")
+            env.fake.hook = hook
+            rows = {1: tablekit.rows(1, start=1000, tag="a1_"), 2: tablekit.rows(1, start=2000, tag="a2_")}
+
+            def body(a):
+                def fn():
+                    h = tablekit.load(loc)
+                    return h.append_records(rows[a])
+                return fn
+            restore = c01._patch_sleep(S)
+            try:
+                with c01._NoBackoff(S):
+                    res = S.run({1: body(1), 2: body(2)})
+            except sched.Stuck as e:
+                rep.notes.append(f"legacy-pointer case k={k} stuck: {e}")
+                break
+            finally:
+                restore()
+                env.fake.hook = None
+            gates1 = len([1 for a, _w in S.trace if a == 1])
+            rep.evaluations += 1
+            rep.nontrivial(["legacy-pointer", k])
+            rep.distribution["legacy-pointer"] += 1
+            case = {"kind": "legacy-pointer-first-access", "other_commits_after_request": k, "schedule": list(S.schedule)[:80]}
+            try:
+                v = reader.view(store)
+            except Exception as e:      # noqa: BLE001
+                rep.violate("C08:table-unreadable-after-legacy-first-access", f"{type(e).__name__}: {str(e)[:100]}", case)
+                k += 1
+                continue
+            for a in (1, 2):
+                ok = res[a][0] == "ok" and res[a][1] is not False
+                n = sum(v["rows"].count(reader.rowkey(r)) for r in rows[a])
+                if ok and n != 1:
+                    rep.violate("C08:lost-update:acknowledged-append", f"legacy table, committer 2's open+append placed before request #{k} of committer 1: the acknowledged "
+                                f"append of committer {a} is reflected {n}/1 times", case)
+                if not ok and n:
+                    rep.violate("C08:anomaly:append", f"legacy table: append of committer {a} raised ({type(res[a][1]).__name__}) but is reflected", case)
+            if k >= gates1:
+                break
+        k += 1 if (ctx.thorough or ctx.intensify) else 2
+
+
 def cases(ctx):
     rng = ctx.rng("cases")
     out = []
@@ -102,6 +176,12 @@ def cases(ctx):
     for k in range(0, 90, 1 if (ctx.thorough or ctx.intensify) else 3):
         out.append({"backend": "s3cas", "topology": "separate", "clock": "real", "actors": 2, "kinds": ["append", "append"], "lock": "none",
                     "gate_requests": True, "hint_put_fault": True, "no_model": True, "chooser": _other_commits_after_k(k)})
+    # ONE writer object committing twice in a row; the other committer's whole commit before each request of the pair (no exclusion, and
+    # with the real lock)
+    for lock in ("none", "real"):
+        for k in range(0, 150, 1 if (ctx.thorough or ctx.intensify) else 4):
+            out.append({"backend": "s3cas", "topology": "separate", "clock": "real", "actors": 2, "kinds": ["append2", "append"], "lock": lock,
+                        "gate_requests": True, "no_model": True, "chooser": _other_commits_after_k(k)})
     # a committer whose fencing check fails must report a conflict
     out.append({"backend": "s3cas", "topology": "separate", "clock": "real", "actors": 2, "kinds": ["append", "append"], "lock": "none",
                 "held_script": {1: [False, True, True]}, "model_cfg": NOLOCK_CFG})
@@ -123,6 +203,7 @@ def run(ctx, model_ok):
                 "conditional PUT' first; fencing-failure script. Trace acceptance by the Lean model with exclusive=false + serializability oracle.")
     base = scratch_dir("c08-")
     try:
+        _legacy_pointer(ctx, rep)
         for c in cases(ctx):
             try:
                 before = len(rep.violations)
